@@ -211,6 +211,9 @@ def to_nd(eng, x):
 
 
 def np_array(eng, args, kw):
+    if isinstance(args[0], SSeq) and args[0].label == 'range':
+        AXIOMS_USED.add('np.array(range(n)) / np.arange(n) = [0, 1, ..., n-1]')
+        return SArr(lambda idx: idx[0], 1, 'int', 'iota', args[0].length)
     d = to_nd(eng, args[0])
     if not isinstance(d, list):
         return d
@@ -310,6 +313,24 @@ def np_argmax(eng, args, kw):
 def np_arange(eng, args, kw):
     if len(args) == 1 and isinstance(args[0], int):
         return NDArr(list(range(args[0])))
+    if len(args) == 1:
+        n = args[0]
+        if not is_intlike(n):
+            raise EngineError('np.arange(n) with non-integer symbolic n')
+        AXIOMS_USED.add('np.array(range(n)) / np.arange(n) = [0, 1, ..., n-1]')
+        return SArr(lambda idx: idx[0], 1, 'int', 'iota', ite(r_cmp('>', n, 0), n, 0))
+    if len(args) == 3:
+        a, b, c = args
+        AXIOMS_USED.add('np.arange(a, b, c): length ceil((b-a)/c) (>= 0), element j = a + j*c -- read over the REALS '
+                        '(numpy evaluates the length in float64; see DESIGN C16)')
+        if eng.decide(r_cmp('==', c, 0)):
+            raise PyRaise('ZeroDivisionError', ())
+        q = r_div(r_sub(b, a), c)
+        qt = term(q, True)
+        fl = z3.ToInt(qt)
+        ceil = z3.If(z3.ToReal(fl) == qt, fl, fl + 1)
+        ln = SV(z3.If(ceil > 0, ceil, 0), 'int')
+        return SArr(lambda idx: r_add(a, r_mul(idx[0], c)), 1, 'real', 'arange', ln)
     raise EngineError('np.arange form not modelled here')
 
 
